@@ -444,7 +444,9 @@ int gd_move(DIRFILE *D, const char *field_code, int new_fragment,
     return 0;
   }
 
-  ret = _GD_Move(D, E, new_fragment, flags);
+  /* the caller's flags share a word with internal ones (GD_REN_META) */
+  ret = _GD_Move(D, E, new_fragment, flags & (GD_REN_DATA | GD_REN_UPDB |
+        GD_REN_DANGLE | GD_REN_FORCE));
 
   dreturn("%i", ret);
   return ret;
